@@ -755,4 +755,77 @@ theorem itemsSpec_embed (cfg : Cfg) : (items : List Item) → ∀ ctx₁ ctx₂ 
     exact ContribEmbeds.append (Item.spec_embed cfg i ctx₁ ctx₂ hctx) (itemsSpec_embed cfg is ctx₁ ctx₂ hctx)
 end
 
+/-! ## outside a shown class nothing is handed to a class -/
+
+/-- nothing is handed to a class -/
+def Contrib.noClassPart (a : Contrib) : Prop := a.inner = [] ∧ a.ctors = [] ∧ a.members = [] ∧ a.attrs = []
+
+theorem Contrib.noClassPart_empty : ({} : Contrib).noClassPart := ⟨rfl, rfl, rfl, rfl⟩
+theorem Contrib.noClassPart_top (t : List Entry) : ({ top := t } : Contrib).noClassPart := ⟨rfl, rfl, rfl, rfl⟩
+theorem Contrib.noClassPart.append {a b : Contrib} (h1 : a.noClassPart) (h2 : b.noClassPart) : (a ++ b).noClassPart := by
+  obtain ⟨a1, a2, a3, a4⟩ := h1
+  obtain ⟨b1, b2, b3, b4⟩ := h2
+  exact ⟨by simp [a1, b1], by simp [a2, b2], by simp [a3, b3], by simp [a4, b4]⟩
+
+theorem asDefinition_noClassPart (cfg : Cfg) (impl : Call) (body : List Item) : (asDefinition cfg impl body).noClassPart := by
+  unfold asDefinition
+  repeat' split
+  all_goals first | exact Contrib.noClassPart_top _ | exact Contrib.noClassPart_empty
+
+mutual
+theorem Item.spec_noClassPart (cfg : Cfg) (ctx : ClsCtx) (hctx : ctx ≠ .shown) : (it : Item) → (it.spec cfg ctx).noClassPart
+  | .cmd doc call => by
+    by_cases h4 : call.lname = lit "cpp_attr"
+    · rw [spec_cmd_attr cfg ctx doc call h4]; simp [hctx]; exact Contrib.noClassPart_empty
+    · simp only [Item.spec, h4, if_false]
+      repeat' split
+      all_goals first | exact Contrib.noClassPart_top _ | exact Contrib.noClassPart_empty
+  | .block doc o body c => by
+    by_cases hf : o.lname = lit "function"
+    · rw [spec_block_function cfg ctx doc o body c hf]
+      refine Contrib.noClassPart.append ?_ (itemsSpec_noClassPart cfg ctx hctx body)
+      split
+      · exact Contrib.noClassPart_top _
+      · exact Contrib.noClassPart_empty
+    by_cases hm : o.lname = lit "macro"
+    · rw [spec_block_macro cfg ctx doc o body c hm]
+      refine Contrib.noClassPart.append ?_ (itemsSpec_noClassPart cfg ctx hctx body)
+      split
+      · exact Contrib.noClassPart_top _
+      · exact Contrib.noClassPart_empty
+    by_cases hc : o.lname = lit "cpp_class"
+    · have h1 : lit "cpp_class" ≠ lit "function" := by decide
+      have h2 : lit "cpp_class" ≠ lit "macro" := by decide
+      cases hi : (doc.isSome || cfg.inclCppClass) <;> simp [Item.spec, hc, h1, h2, hi, hctx, Contrib.noClassPart]
+    · rw [spec_block_other cfg ctx doc o body c hf hm hc]
+      refine Contrib.noClassPart.append ?_ (itemsSpec_noClassPart cfg ctx hctx body)
+      split
+      · exact Contrib.noClassPart_top _
+      · exact Contrib.noClassPart_empty
+  | .decl doc d impl body c => by
+    have ihb := itemsSpec_noClassPart cfg ctx hctx body
+    by_cases ht : d.lname = lit "ct_add_test"
+    · rw [spec_decl_test_if cfg ctx doc d impl body c ht]
+      refine Contrib.noClassPart.append ?_ ihb
+      split
+      · exact Contrib.noClassPart_top _
+      · exact asDefinition_noClassPart _ _ _
+    by_cases hs : d.lname = lit "ct_add_section"
+    · rw [spec_decl_section_if cfg ctx doc d impl body c hs]
+      refine Contrib.noClassPart.append ?_ ihb
+      split
+      · exact Contrib.noClassPart_top _
+      · exact asDefinition_noClassPart _ _ _
+    · rw [spec_decl_memberlike cfg ctx doc d impl body c ht hs]
+      refine Contrib.noClassPart.append ?_ ihb
+      simp [hctx]; exact asDefinition_noClassPart _ _ _
+  | .dangling _ => by simp [Item.spec]; exact Contrib.noClassPart_empty
+theorem itemsSpec_noClassPart (cfg : Cfg) (ctx : ClsCtx) (hctx : ctx ≠ .shown) :
+    (items : List Item) → (itemsSpec cfg ctx items).noClassPart
+  | [] => by simp [itemsSpec]; exact Contrib.noClassPart_empty
+  | i :: is => by
+    rw [itemsSpec_cons]
+    exact (Item.spec_noClassPart cfg ctx hctx i).append (itemsSpec_noClassPart cfg ctx hctx is)
+end
+
 end Cminx
